@@ -27,6 +27,8 @@ LEVEL = "model_checking"
 FLAVOURS = [dict(is_async=a, active_low=l, step_cond=False) for a in (False, True) for l in (False, True)]
 # step_cond gates the body like a clock enable; reset must still act at every active edge / instant
 FLAVOURS += [dict(is_async=False, active_low=False, step_cond=True), dict(is_async=True, active_low=True, step_cond=True)]
+# process created from `ctx.with_params(step_cond=...)` of a base context that carries the reset and the on_reset actions
+FLAVOURS += [dict(is_async=False, active_low=False, step_cond=True, with_params=True), dict(is_async=True, active_low=False, step_cond=True, with_params=True)]
 
 
 class ResetMixin:
@@ -261,7 +263,8 @@ def main(run: Run):
 
 def flavour_name(fi):
     f = FLAVOURS[fi]
-    return ("async" if f["is_async"] else "sync") + ("-low" if f["active_low"] else "-high") + ("-stepcond" if f.get("step_cond") else "")
+    return ("async" if f["is_async"] else "sync") + ("-low" if f["active_low"] else "-high") + ("-stepcond" if f.get("step_cond") else "") + \
+        ("-withparams" if f.get("with_params") else "")
 
 
 def replay(run: Run, data):
